@@ -94,9 +94,10 @@ ASSUMPTIONS = [
     "file is unchanged either way)",
     "data frames and dimension links (Store/C04Ext, Op4): the gone / unreachable / frame theorems hold for every "
     "graph and hence for Op4 histories (history4_delete, delete_frame)",
-    "copies in the correspondence histories use the copy model of Store/Copy.lean (C20's subject) within one file "
-    "and the object test of SourceLinkContainer.append (Store/CopyFrames.contAppend20); which error a refused copy "
-    "raises is not compared here",
+    "copies in the correspondence histories use the copy model of Store/Copy.lean (C20's subject) within one file; "
+    "SourceLinkContainer.append asks for the object of the block's source tree (Store/Api.contAppend: same id and "
+    "same node, fix a440b8d) - after an id-keeping array copy the copy links a detached duplicate of each source, "
+    "which is refused; which error a refused copy raises is not compared here",
 ]
 TRUSTED_EXTRA = ["harness/lib/storeimpl.py + storegen.py (path addressing by iteration, HDF5-level dump with h5py)",
                  "harness/lib/walk.py (canonical walk of the public API used by the oracle)"]
